@@ -20,6 +20,26 @@ set_option linter.unusedVariables false
     and has a 3-entry `pbc`; `Boundary`: every object has an `atype` property. -/
 def Inv (s : State) : Prop := (∃ κ, InvK κ s) ∧ Boundary s
 
+/-- the stored form of the constructor's `pos` is a well-formed literal … -/
+theorem posLit_ok (v : Val) (h : v.ok = true) : (posLit v).ok = true := by
+  unfold posLit
+  split
+  · simp only [Val.ok, Bool.and_eq_true, beq_iff_eq, List.all_eq_true] at h ⊢
+    refine ⟨by simpa using h.1, ?_⟩
+    intro c hc
+    simp only [List.mem_map] at hc
+    obtain ⟨c0, _, rfl⟩ := hc
+    cases c0 <;> simp [castCell, Cell.hasType]
+  · exact h
+
+/-- … never of an integer or boolean dtype (what `Atoms(pos=…)` binds as `pos` is a float or string array), of the
+    shape it was given; a float / string literal is stored as it is. -/
+theorem posLit_spec (v : Val) :
+    (posLit v).dt ≠ .int ∧ (posLit v).dt ≠ .bool ∧ (posLit v).shape = v.shape ∧
+    ((v.dt ≠ .int ∧ v.dt ≠ .bool) → posLit v = v) ∧ posLit (posLit v) = posLit v := by
+  rcases v with ⟨dt, shape, data⟩
+  cases dt <;> simp [posLit, posCastKinds, kindOf]
+
 /-- every call of the documented grammar, started in a state satisfying the invariant, ends
     (normally or by raising) in a state satisfying it. -/
 theorem inv_run {κ : Nat → String} {s : State} (h : InvK κ s) (hb : Boundary s) (off : Bool) (op : Op)
@@ -29,7 +49,8 @@ theorem inv_run {κ : Nat → String} {s : State} (h : InvK κ s) (hb : Boundary
   | new n a p ex =>
     simp only [Op.litsOk, Bool.and_eq_true, List.all_eq_true] at hlits
     apply post_map_good
-    apply Post.mono (inv_mkAtoms h n (a.map .lit) (p.map .lit) (ex.map (fun kv => (kv.1, Src.lit kv.2))) ?_ ?_ ?_)
+    apply Post.mono (inv_mkAtoms h n (a.map .lit) (p.map (fun v => Src.lit (posLit v)))
+      (ex.map (fun kv => (kv.1, Src.lit kv.2))) ?_ ?_ ?_)
     · intro r s' hm; exact Good.of_made hm
     · intro src hsrc
       cases a with
@@ -42,7 +63,7 @@ theorem inv_run {κ : Nat → String} {s : State} (h : InvK κ s) (hb : Boundary
       | none => cases hsrc
       | some v =>
         simp at hsrc; subst hsrc
-        exact valOK_of_ok v (by simpa using hlits.1.2)
+        exact valOK_of_ok (posLit v) (posLit_ok v (by simpa using hlits.1.2))
     · intro kv hkv
       simp only [List.mem_map] at hkv
       obtain ⟨kv0, hkv0, rfl⟩ := hkv
